@@ -37,6 +37,26 @@ type CliScenario struct {
 	// Stale > 0: the destination already exists and holds that many bytes of
 	// old content (it must be replaced, not overwritten in place)
 	Stale int `json:"stale_dest_bytes,omitempty"`
+	// GName: file name of the grammar (default g.peg)
+	GName string `json:"grammar_name,omitempty"`
+	// DestLink: "symlink" or "hardlink": the named destination already exists
+	// as a link to another file in the directory
+	DestLink string `json:"dest_link,omitempty"`
+	// Env: 1 = HOME, TMPDIR, LANG, TZ point at odd values
+	Env int `json:"env,omitempty"`
+	// Unpriv: peg runs as user nobody (the harness is root, for which file
+	// permissions do not exist); with it come the sources "unreadable" (a
+	// grammar without read permission) and the destinations "readonlyfile"
+	// (an existing file of another user in a sticky world-writable directory)
+	// and "readonlydir" (a directory the user may not write to)
+	Unpriv bool `json:"unprivileged,omitempty"`
+}
+
+func (sc *CliScenario) gname() string {
+	if sc.GName != "" {
+		return sc.GName
+	}
+	return "g.peg"
 }
 
 type CliFault struct {
@@ -137,7 +157,9 @@ func (sc *CliScenario) layout(dir string) cliLayout {
 		}
 		return n
 	}
-	l.stdoutTo = filepath.Join(dir, "stdout.txt")
+	// the harness's own files live next to, not inside, the run directory:
+	// everything below the run directory is fair game for fault injection
+	l.stdoutTo = filepath.Join(dir+".io", "stdout.txt")
 	l.argv = append(l.argv, sc.Opts...)
 	out := ""
 	switch sc.Dest {
@@ -145,6 +167,10 @@ func (sc *CliScenario) layout(dir string) cliLayout {
 		out = name("out.go")
 	case "stdout":
 		out = "-"
+	case "readonlyfile":
+		out = name("sticky/out.go")
+	case "readonlydir":
+		out = name("rodir/out.go")
 	case "missingdir":
 		out = name("nodir/out.go")
 	case "isdir":
@@ -157,10 +183,16 @@ func (sc *CliScenario) layout(dir string) cliLayout {
 	}
 	switch sc.Source {
 	case "file":
-		l.argv = append(l.argv, name("g.peg"))
-		l.srcPath = filepath.Join(dir, "g.peg")
+		l.argv = append(l.argv, name(sc.gname()))
+		l.srcPath = filepath.Join(dir, sc.gname())
 		if out == "" {
-			out = name("g.peg") + ".go"
+			out = name(sc.gname()) + ".go"
+		}
+	case "unreadable":
+		l.argv = append(l.argv, name(sc.gname()))
+		l.srcPath = filepath.Join(dir, sc.gname())
+		if out == "" {
+			out = name(sc.gname()) + ".go"
 		}
 	case "missing":
 		l.argv = append(l.argv, name("nosuch.peg"))
@@ -176,10 +208,10 @@ func (sc *CliScenario) layout(dir string) cliLayout {
 		}
 	case "dash":
 		l.argv = append(l.argv, "-")
-		l.stdinFile = filepath.Join(dir, "g.peg")
+		l.stdinFile = filepath.Join(dir, sc.gname())
 		l.srcPath = l.stdinFile
 	case "stdin":
-		l.stdinFile = filepath.Join(dir, "g.peg")
+		l.stdinFile = filepath.Join(dir, sc.gname())
 		l.srcPath = l.stdinFile
 	}
 	l.outName = out
@@ -199,9 +231,16 @@ func (l *cliLayout) prepare(sc *CliScenario) error {
 	if err := os.MkdirAll(l.dir, 0o755); err != nil {
 		return err
 	}
+	if err := os.MkdirAll(l.dir+".io", 0o755); err != nil {
+		return err
+	}
 	switch sc.Source {
+	case "unreadable":
+		if err := os.WriteFile(filepath.Join(l.dir, sc.gname()), []byte(sc.Text), 0o600); err != nil {
+			return err
+		}
 	case "file", "dash", "stdin":
-		if err := os.WriteFile(filepath.Join(l.dir, "g.peg"), []byte(sc.Text), 0o644); err != nil {
+		if err := os.WriteFile(filepath.Join(l.dir, sc.gname()), []byte(sc.Text), 0o644); err != nil {
 			return err
 		}
 	case "dir":
@@ -214,15 +253,69 @@ func (l *cliLayout) prepare(sc *CliScenario) error {
 			return err
 		}
 	}
-	if sc.Stale > 0 && (sc.Dest == "named" || sc.Dest == "default") && !l.destIsStd {
+	switch sc.Dest {
+	case "readonlyfile":
+		d := filepath.Join(l.dir, "sticky")
+		if err := os.MkdirAll(d, 0o755); err != nil {
+			return err
+		}
+		if err := os.Chmod(d, 0o1777|os.ModeSticky); err != nil {
+			return err
+		}
+		if err := os.WriteFile(filepath.Join(d, "out.go"), []byte("// parser of another user\n"), 0o644); err != nil {
+			return err
+		}
+	case "readonlydir":
+		if err := os.MkdirAll(filepath.Join(l.dir, "rodir"), 0o755); err != nil {
+			return err
+		}
+	}
+	if sc.DestLink != "" && sc.Dest == "named" && !l.destIsStd {
+		target := filepath.Join(l.dir, "link-target.go")
+		if err := os.WriteFile(target, []byte("// old\n"), 0o644); err != nil {
+			return err
+		}
+		var err error
+		if sc.DestLink == "symlink" {
+			err = os.Symlink("link-target.go", l.dstPath)
+		} else {
+			err = os.Link(target, l.dstPath)
+		}
+		if err != nil {
+			return err
+		}
+	} else if sc.Stale > 0 && (sc.Dest == "named" || sc.Dest == "default") && !l.destIsStd {
 		if err := os.WriteFile(l.dstPath, bytes.Repeat([]byte("// stale content of an earlier run\n"), sc.Stale/35+1), 0o644); err != nil {
 			return err
 		}
 	}
+	if sc.Unpriv {
+		// the run directory and what is in it belong to the unprivileged
+		// user, except what was set up above as somebody else's
+		keep := map[string]bool{filepath.Join(l.dir, "sticky"): true, filepath.Join(l.dir, "sticky", "out.go"): true, filepath.Join(l.dir, "rodir"): true}
+		if sc.Source == "unreadable" {
+			keep[filepath.Join(l.dir, sc.gname())] = true
+		}
+		_ = filepath.WalkDir(l.dir, func(p string, d os.DirEntry, err error) error {
+			if err == nil && !keep[p] {
+				_ = os.Lchown(p, 65534, 65534)
+			}
+			return nil
+		})
+		_ = os.Chmod(l.dir, 0o755)
+	}
 	return nil
 }
 
-var errnoNum = map[string]int{"SIGTERM": -15, "SIGINT": -2, "SIGHUP": -1, "EOF": 0, "ENOENT": 2, "EIO": 5, "EACCES": 13, "EMFILE": 24, "EFBIG": 27, "ENOSPC": 28, "EDQUOT": 122, "EROFS": 30, "ENOMEM": 12}
+func scenarioEnv(sc *CliScenario) []string {
+	env := append(os.Environ(), "GOTRACEBACK=single")
+	if sc.Env == 1 {
+		env = append(env, "HOME=/nonexistent-home", "TMPDIR=/nonexistent-tmp", "LANG=tlh_QO.UTF-8", "TZ=Pacific/Kiritimati", "USER=nobody", "TERM=dumb", "NO_COLOR=1")
+	}
+	return env
+}
+
+var errnoNum = map[string]int{"SIGTERM": -15, "SIGINT": -2, "SIGHUP": -1, "EOF": 0, "EPERM": 1, "EXDEV": 18, "EEXIST": 17, "ENOTDIR": 20, "EISDIR": 21, "ENAMETOOLONG": 36, "ELOOP": 40, "ETXTBSY": 26, "EBADF": 9, "EPIPE": 32, "ESTALE": 116, "ENODEV": 19, "ENOENT": 2, "EIO": 5, "EACCES": 13, "EMFILE": 24, "EFBIG": 27, "ENOSPC": 28, "EDQUOT": 122, "EROFS": 30, "ENOMEM": 12}
 var errnoName = func() map[int]string {
 	m := map[int]string{}
 	for k, v := range errnoNum {
@@ -240,13 +333,18 @@ func (rig *cliRig) run(c *CliCase, dir string, traceAll bool) (*cliObs, error) {
 		return nil, infra("prepare: %v", err)
 	}
 	defer os.RemoveAll(dir)
+	defer os.RemoveAll(dir + ".io")
 	sp := ptrace.Spec{Argv: append([]string{rig.peg}, l.argv...), Dir: dir,
 		Env:       append(os.Environ(), "GOTRACEBACK=single"),
 		Stdin:     l.stdinFile,
 		StdinPipe: sc.StdinPipe,
 		Stdout:    l.stdoutTo,
-		Stderr:    filepath.Join(dir, "stderr.txt"),
+		Stderr:    filepath.Join(dir+".io", "stderr.txt"),
 		Watch:     map[string]string{"dst": l.dstPath},
+		WatchDir:  dir,
+	}
+	if sc.Unpriv {
+		sp.Uid, sp.Gid = 65534, 65534
 	}
 	if l.srcPath != "" {
 		sp.Watch["src"] = l.srcPath
@@ -258,7 +356,7 @@ func (rig *cliRig) run(c *CliCase, dir string, traceAll bool) (*cliObs, error) {
 		}
 		sp.Faults = append(sp.Faults, ptrace.Fault{Target: f.Target, Syscall: f.Syscall, Errno: n, When: f.When, Persistent: f.Persistent})
 	}
-	specPath := filepath.Join(dir, "spec.json")
+	specPath := filepath.Join(dir+".io", "spec.json")
 	sb, _ := json.Marshal(sp)
 	if err := os.WriteFile(specPath, sb, 0o644); err != nil {
 		return nil, infra("spec: %v", err)
@@ -356,11 +454,16 @@ func (rig *cliRig) judge(c *CliCase, obs *cliObs, dir string) (*cliVerdict, erro
 	var keys []string
 	closeFault := false
 	signalled := false
+	softFault := false
 	for _, in := range obs.Injected {
 		keys = append(keys, in.Target+":"+in.Syscall+":"+in.Errno)
 		switch {
 		case strings.HasPrefix(in.Errno, "SIG"):
 			// handled below: the call itself proceeds
+		case in.Target == "dir":
+			// an auxiliary file (temporary output, lock, …): the program may
+			// recover or give up
+			softFault = true
 		case in.Syscall == "openat":
 			fail("open of " + in.Target + " failed with " + in.Errno)
 		case in.Syscall == "read" && in.Errno != "EOF":
@@ -369,6 +472,10 @@ func (rig *cliRig) judge(c *CliCase, obs *cliObs, dir string) (*cliVerdict, erro
 			fail("write to the destination failed with " + in.Errno)
 		case in.Syscall == "close":
 			closeFault = true
+		case in.Syscall == "rename" || in.Syscall == "unlink" || in.Syscall == "fsync" || in.Syscall == "ftruncate" || in.Target == "dir":
+			// a step of some other way of producing the destination (temporary
+			// file, rename, sync) failed: the program may recover or give up
+			softFault = true
 		}
 		if strings.HasPrefix(in.Errno, "SIG") {
 			signalled = true
@@ -380,6 +487,8 @@ func (rig *cliRig) judge(c *CliCase, obs *cliObs, dir string) (*cliVerdict, erro
 		v.FaultKey = strings.Join(dedup(keys), ",")
 	}
 	switch sc.Source {
+	case "unreadable":
+		fail("grammar file is not readable by this user")
 	case "missing":
 		fail("grammar file does not exist")
 	case "dir":
@@ -390,6 +499,10 @@ func (rig *cliRig) judge(c *CliCase, obs *cliObs, dir string) (*cliVerdict, erro
 		fail("destination directory does not exist")
 	case "isdir":
 		fail("destination is a directory")
+	case "readonlyfile":
+		fail("destination is another user's file and not writable")
+	case "readonlydir":
+		fail("destination directory is not writable by this user")
 	case "devfull":
 		// only reached when something is written
 	}
@@ -417,6 +530,9 @@ func (rig *cliRig) judge(c *CliCase, obs *cliObs, dir string) (*cliVerdict, erro
 	}
 	if v.Expect == "SUCCESS" && closeFault {
 		v.Expect, v.Why = "EITHER", "close failed after a complete write"
+	}
+	if softFault && v.Expect == "SUCCESS" {
+		v.Expect, v.Why = "EITHER", "a rename/unlink/sync or a call on an auxiliary file failed"
 	}
 	if signalled && v.Expect == "SUCCESS" {
 		// a termination signal may kill the process (any status, no message
@@ -505,7 +621,11 @@ func firstDiff(a, b []byte) string {
 
 func (c *CliCase) key(v *cliVerdict) string {
 	sc := &c.Sc
-	return fmt.Sprintf("text=%s src=%s dst=%s strict=%t fault=%s", sc.TextKind, sc.Source, sc.Dest, has(sc.Opts, "-strict"), v.FaultKey)
+	who := ""
+	if sc.Unpriv {
+		who = " user=nobody"
+	}
+	return fmt.Sprintf("text=%s src=%s dst=%s strict=%t%s fault=%s", sc.TextKind, sc.Source, sc.Dest, has(sc.Opts, "-strict"), who, v.FaultKey)
 }
 
 // ---------- scenario generation ----------
@@ -594,6 +714,34 @@ func (e *Env) cliScenarios(texts []cliText, r *simrt.SplitMix64, n int) []CliSce
 		if (sc.Dest == "named" || sc.Dest == "default") && r.Chance(1, 3) {
 			sc.Stale = []int{10, 5000, 400000}[r.Intn(3)]
 		}
+		if sc.Dest == "named" && r.Chance(1, 6) {
+			sc.DestLink = []string{"symlink", "hardlink"}[r.Intn(2)]
+		}
+		if r.Chance(1, 4) {
+			sc.GName = []string{"G.PEG", "grammar", "a b.peg", "x.peg.peg", ".hidden.peg", "näme.peg", strings.Repeat("n", 120) + ".peg", "g.go"}[r.Intn(8)]
+		}
+		if r.Chance(1, 4) {
+			sc.Env = 1
+		}
+		if r.Chance(1, 5) {
+			sc.Unpriv = true
+			switch r.Intn(5) {
+			case 0:
+				sc.Source = "unreadable"
+				if sc.Dest == "stdout" || sc.Dest == "default" || sc.Dest == "named" {
+					// keep
+				} else {
+					sc.Dest = "named"
+				}
+			case 1:
+				sc.Dest = "readonlyfile"
+			case 2:
+				sc.Dest = "readonlydir"
+			}
+			if sc.Source == "stdin" || sc.Source == "dash" {
+				sc.StdinPipe = 0
+			}
+		}
 		out = append(out, sc)
 	}
 	return out
@@ -611,6 +759,11 @@ func faultsFor(sc *CliScenario, calls map[string]int, r *simrt.SplitMix64, write
 			for _, e := range []string{"ENOENT", "EACCES", "EIO", "EMFILE"} {
 				one(CliFault{Target: t, Syscall: "openat", Errno: e, When: k})
 			}
+			// and two errnos drawn from the rest of what open(2) can return
+			rest := []string{"EPERM", "EEXIST", "ENOTDIR", "EISDIR", "ENAMETOOLONG", "ELOOP", "ETXTBSY", "EROFS", "ENOMEM", "ENOSPC", "EDQUOT", "ESTALE", "ENODEV"}
+			for range 2 {
+				one(CliFault{Target: t, Syscall: "openat", Errno: rest[r.Intn(len(rest))], When: k})
+			}
 		}
 		for k := 1; k <= calls[t+":close"]; k++ {
 			one(CliFault{Target: t, Syscall: "close", Errno: "EIO", When: k})
@@ -618,8 +771,26 @@ func faultsFor(sc *CliScenario, calls map[string]int, r *simrt.SplitMix64, write
 	}
 	for k := 1; k <= calls["src:read"]; k++ {
 		one(CliFault{Target: "src", Syscall: "read", Errno: "EIO", When: k})
+		one(CliFault{Target: "src", Syscall: "read", Errno: []string{"EISDIR", "EBADF", "ENOMEM", "ESTALE", "EACCES"}[r.Intn(5)], When: k})
 		one(CliFault{Target: "src", Syscall: "read", Errno: "EOF", When: k})
 		one(CliFault{Target: "src", Syscall: "read", Errno: "EIO", When: k, Persistent: true})
+	}
+	// whatever else the program does below its directory (temporary files,
+	// renames over the destination, syncs) can fail too
+	for _, key := range []string{"dst:rename", "dst:unlink", "dst:fsync", "dst:ftruncate", "dir:openat", "dir:write", "dir:close", "dir:rename", "dir:unlink", "dir:fsync"} {
+		n := calls[key]
+		if n == 0 {
+			continue
+		}
+		t, sys, _ := strings.Cut(key, ":")
+		ks := []int{1, n}
+		if n > 2 {
+			ks = append(ks, 1+r.Intn(n))
+		}
+		for _, k := range ks {
+			e := []string{"EPERM", "EACCES", "EIO", "ENOSPC", "EROFS", "EXDEV"}[r.Intn(6)]
+			one(CliFault{Target: t, Syscall: sys, Errno: e, When: k})
+		}
 	}
 	// a termination signal while a call on the grammar or the destination is
 	// in flight (the call itself proceeds)
@@ -652,7 +823,10 @@ func faultsFor(sc *CliScenario, calls map[string]int, r *simrt.SplitMix64, write
 		ks = append(ks, k)
 	}
 	sort.Ints(ks)
-	errs := []string{"ENOSPC", "EIO", "EDQUOT", "EFBIG"}
+	// EPIPE is not injected: on descriptors 1 and 2 the Go runtime turns it
+	// into a fatal SIGPIPE before the program sees the error, so a message
+	// cannot be demanded
+	errs := []string{"ENOSPC", "EIO", "EDQUOT", "EFBIG", "EROFS", "ENOMEM", "EBADF", "ESTALE", "EPERM"}
 	for i, k := range ks {
 		one(CliFault{Target: "dst", Syscall: "write", Errno: errs[i%len(errs)], When: k})
 		if i%2 == 0 {
@@ -859,6 +1033,11 @@ func newCliRig(e *Env, sc *Scratch) (*cliRig, error) {
 	if err := e.BuildPeg(repo, rig.peg, false); err != nil {
 		return nil, err
 	}
+	// unprivileged scenarios: the scratch directory must be traversable and
+	// the binary executable for user nobody
+	_ = os.Chmod(sc.Dir, 0o755)
+	_ = os.Chmod(rig.peg, 0o755)
+	_ = os.MkdirAll(sc.Path("runs"), 0o755)
 	if err := CopyFrontEnd(repo); err != nil {
 		return nil, infra("front end: %v", err)
 	}
